@@ -44,18 +44,20 @@ def run(ctx):
     # ---------------- R03b
     r = ctx.rule('R03b', 'a destination that was supplied is copied out unchanged (no writer touches it)',
                  'reconstructing an index that is present must return the caller\'s bytes')
-    # the copy source is a phi: the incoming value on the path that skips the backend call
-    src = strip_ptr_casts(f, cp.ops[1])
-    sd = f.defs.get(src)
-    if sd is None or sd.op != 'phi':
-        r.undecided('copy-out source', loc=cp.loc, msg='the fragment copied out is not a merge of the rebuilt and the supplied fragment')
-    else:
-        opreach = reachable_from(opc.bb)
-        skip = [(v, l) for v, l in sd.incoming if f.blocks[l] not in opreach]
-        if not skip:
-            r.fail('destination-available path', func=f.name, sig='no path returns the supplied fragment', loc=cp.loc,
-                   msg='every path to the copy-out passes the backend reconstruct: a supplied destination is recomputed instead of returned')
-        for v, l in skip:
+    # copy-outs reachable without passing the backend call: their source is the supplied fragment
+    opreach = reachable_from(opc.bb)
+    skip = []          # (copy, value, block the value arrives from / copy block)
+    for cpx in copies:
+        src = strip_ptr_casts(f, cpx.ops[1])
+        sd = f.defs.get(src)
+        if cpx.bb not in opreach:
+            skip.append((cpx, src, cpx.bb))
+        elif sd is not None and sd.op == 'phi':
+            skip += [(cpx, v, f.blocks[l]) for v, l in sd.incoming if f.blocks[l] not in opreach]
+    if not skip:
+        r.fail('destination-available path', func=f.name, sig='no path returns the supplied fragment', loc=cp.loc,
+               msg='every path to the copy-out passes the backend reconstruct: a supplied destination is recomputed instead of returned')
+    for cpx, v, lb in skip:
             vals = {v}
             d = f.defs.get(v)
             if d is not None and d.op == 'phi':
@@ -71,24 +73,22 @@ def run(ctx):
             A, _ = derived_pointers(f, list(vals))
             writers = []
             for i in f.insts():
-                if i.op == 'call' and i is not cp and f.blocks[l] in reachable_from(i.bb) or (i.op == 'call' and i.bb is f.blocks[l]):
-                    if i.op != 'call':
-                        continue
+                if i.op == 'call' and i is not cpx and (lb in reachable_from(i.bb) or i.bb is lb) and i.bb not in opreach:
                     for ai, a in enumerate(i.ops):
-                        if a in A and i is not cp:
+                        if a in A:
                             for cal in cg.callees(f, i):
                                 if E.writes_through(cal, ai, deep=False):
                                     writers.append((i, cal))
-                elif i.op == 'store' and i.ops[1] in A:
+                elif i.op == 'store' and i.ops[1] in A and i.bb not in opreach:
                     writers.append((i, 'store'))
             if ok_src and not writers:
-                r.ok('supplied destination: element of data[]/parity[] copied out, untouched', func=f.name, loc=cp.loc, facts={'source': C.val(v)})
+                r.ok('supplied destination: element of data[]/parity[] copied out, untouched', func=f.name, loc=cpx.loc, facts={'source': C.val(v)})
             elif writers:
                 i, cal = writers[0]
                 r.fail('supplied destination unchanged', func=f.name, sig=f'supplied fragment passed to {cal}', loc=i.loc,
                        msg=f'on the destination-available path the caller\'s fragment is handed to {cal}, which writes to it')
             else:
-                r.fail('supplied destination source', func=f.name, sig=f'copy source {C.val(v)[:50]}', loc=cp.loc, msg='the bytes copied out are not the supplied fragment')
+                r.fail('supplied destination source', func=f.name, sig=f'copy source {C.val(v)[:50]}', loc=cpx.loc, msg='the bytes copied out are not the supplied fragment')
     r.require_min(1)
 
     # ---------------- R03c
@@ -126,8 +126,12 @@ def run(ctx):
                 succ = (src_, dst_)
         if succ is None:
             probs.append('the serializer is not applied after a successful backend reconstruct (payload checksum would cover bytes not yet written)')
-        if a.bb not in [b for b in f.order if cp.bb in reachable_from(b)]:
-            probs.append('copy-out does not follow the serializer')
+        after = [c for c in copies if c.bb in reachable_from(opc.bb)]
+        if not after:
+            probs.append('no copy-out follows the backend reconstruct')
+        for c in after:
+            if reaches_without(f, opc.bb, lambda i, c=c: i is c, lambda i, a=a: i is a, opc.idx + 1) is not None:
+                probs.append('a path from the backend reconstruct reaches the copy-out without passing the serializer')
         ih = [i for i in f.insts() if i.op == 'call' and i.callee == '@init_fragment_header' and C.val(i.ops[0]) == C.val(a.ops[1])]
         if not ih:
             probs.append('init_fragment_header is not applied to the rebuilt fragment')
@@ -137,10 +141,11 @@ def run(ctx):
             r.ok('add_fragment_metadata(instance, fragment, destination_idx, sizes from prepare, instance ct, checksum on) after the backend, before copy-out',
                  func=f.name, loc=a.loc, facts={'args': args})
     # copy length = fragment_len
-    if C.val(strip_int_casts(f, cp.ops[2])) == f'arg{li}':
-        r.ok('copy-out length is fragment_len', func=f.name, loc=cp.loc)
-    else:
-        r.fail('copy-out length', func=f.name, sig=f'copies {C.val(cp.ops[2])[:40]}', loc=cp.loc, msg='the output fragment is not copied with the full fragment length')
+    for cpx in copies:
+        if C.val(strip_int_casts(f, cpx.ops[2])) == f'arg{li}':
+            r.ok('copy-out length is fragment_len', func=f.name, loc=cpx.loc)
+        else:
+            r.fail('copy-out length', func=f.name, sig=f'copies {C.val(cpx.ops[2])[:40]}', loc=cpx.loc, msg='the output fragment is not copied with the full fragment length')
     r.require_min(2)
 
     r = ctx.rule('R02b', 'reconstruct cone: fallible results are returned or tested')
